@@ -42,7 +42,7 @@ type vC23Gen struct{ r *vRand }
 
 // a byte string packed 7 bytes per primitive 63-bit integer literal (a list of byte literals or a string
 // literal costs ~10 term nodes per byte, which makes Coq spend minutes on a few megabytes of payload)
-func cqHex(b []byte) string {
+func cqC23Bytes(b []byte) string {
 	if len(b) == 0 {
 		return "[]"
 	}
@@ -67,10 +67,10 @@ func cqHex(b []byte) string {
 	return sb.String()
 }
 
-func cqHexList(bb [][]byte) string { return cqListOf(bb, cqHex) }
+func cqC23BytesList(bb [][]byte) string { return cqListOf(bb, cqC23Bytes) }
 
-func cqPkt(p *rtp.Packet) string {
-	return cqApp("P", cqZ(int64(p.SequenceNumber)), cqZ(int64(p.Timestamp)), cqBool(p.Marker), cqZ(int64(p.SSRC)), cqHex(p.Payload))
+func cqC23Pkt(p *rtp.Packet) string {
+	return cqApp("P", cqZ(int64(p.SequenceNumber)), cqZ(int64(p.Timestamp)), cqBool(p.Marker), cqZ(int64(p.SSRC)), cqC23Bytes(p.Payload))
 }
 
 func vC23ClonePkt(p *rtp.Packet) *rtp.Packet {
@@ -214,7 +214,7 @@ func vC23Decode(d rtpDecoder, pkt *rtp.Packet) (coq string, desc string, l [][]b
 		return "PMore", "more", nil
 	}
 	l = vCopy2(vC22PayloadList(p))
-	return cqApp("POk", cqHexList(l)), fmt.Sprint(vC23Sizes(l)), l
+	return cqApp("POk", cqC23BytesList(l)), fmt.Sprint(vC23Sizes(l)), l
 }
 
 // the known gortsplib defect (KNOWN_FINDINGS class av1/obus-merged-at-packet-boundary): the decoder returns the
@@ -383,7 +383,7 @@ func vC23Run(g *vC23Gen, sc vC23Scenario) (coq string, desc map[string]any, clas
 		default:
 			if !u.NilPayload() {
 				deliv = vC22PayloadList(u.Payload)
-				delivCoq = "(Some " + cqHexList(deliv) + ")"
+				delivCoq = "(Some " + cqC23BytesList(deliv) + ")"
 				ds["delivered"] = vC23Sizes(deliv)
 			}
 			var obs []string
@@ -419,7 +419,7 @@ func vC23Run(g *vC23Gen, sc vC23Scenario) (coq string, desc map[string]any, clas
 					trig = true
 				}
 			}
-			res = cqApp("SOk", cqListOf(u.RTPPackets, cqPkt), cqList(obs))
+			res = cqApp("SOk", cqListOf(u.RTPPackets, cqC23Pkt), cqList(obs))
 			ds["out"] = vC23PktDesc(u.RTPPackets)
 			if dobs != nil {
 				ds["decoded"] = dobs
@@ -428,7 +428,7 @@ func vC23Run(g *vC23Gen, sc vC23Scenario) (coq string, desc map[string]any, clas
 		if dl != nil {
 			ds["tsDeltas"] = dl
 		}
-		steps = append(steps, cqApp("Step", cqZ(in.pts), cqListOf(sentPkts, cqPkt), cqBool(decerr), delivCoq,
+		steps = append(steps, cqApp("Step", cqZ(in.pts), cqListOf(sentPkts, cqC23Pkt), cqBool(decerr), delivCoq,
 			cqListOf(dl, func(v int64) string { return cqZ(v) }), res))
 		dsteps = append(dsteps, ds)
 		if merged {
